@@ -70,6 +70,9 @@ def cases(ctx):
     n = 2000 if ctx.tier == 'quick' else 20000
     if ctx.mine(i):
         yield {'kind': 'freshness', 'n': n}
+    i += 1
+    if ctx.mine(i):
+        yield {'kind': 'freshness_fork', 'children': 4, 'blocks': 64}
 
 
 def fail(ctx, case, mech, detail):
@@ -89,6 +92,8 @@ def step(ctx, case, what, fn, *a, **kw):
 def judge(ctx, case):
     if case['kind'] == 'freshness':
         return judge_freshness(ctx, case)
+    if case['kind'] == 'freshness_fork':
+        return judge_freshness_fork(ctx, case)
     f = case['flavour']
     cls, cipher = ctx.flavours[f]
     fmt = f[:4]
@@ -192,6 +197,49 @@ def judge_freshness(ctx, case):
         fail(ctx, case, 'freshness:fill_is_narrow', {'bits_ever_set': '%016x' % ones, 'bits_ever_clear': '%016x' % zeros})
 
 
+def judge_freshness_fork(ctx, case):
+    """
+    "fresh per block" also across processes: a block is built in this process, then forked children build blocks without a
+    supplied fill.  Children of one parent share its memory image, so any pre-drawn or cached randomness is replayed.
+    """
+    import json
+    import os
+    P = ctx.pb
+    P.Iso4PinBlock('1234')                       # something drawn before the fork
+    fills = []
+    for c in range(case['children']):
+        r, w = os.pipe()
+        pid = os.fork()
+        if pid == 0:
+            try:
+                os.close(r)
+                mine = [P.Iso4PinBlock('%04d' % k).random_value for k in range(case['blocks'])]
+                os.write(w, json.dumps(mine).encode())
+            finally:
+                os._exit(0)
+        os.close(w)
+        data = b''
+        while True:
+            chunk = os.read(r, 65536)
+            if not chunk:
+                break
+            data += chunk
+        os.close(r)
+        os.waitpid(pid, 0)
+        try:
+            fills.append(json.loads(data.decode()))
+        except ValueError:
+            ctx.inconclusive_because('forked child did not report its fills')
+            return
+    ctx.case_done(['fork', case['children'], case['blocks']])
+    ctx.count('format-4 blocks built in forked children', sum(len(f) for f in fills))
+    allf = [x for f in fills for x in f]
+    if len(set(allf)) != len(allf):
+        same_pos = sum(1 for k in range(case['blocks']) if len({f[k] for f in fills}) < len(fills))
+        fail(ctx, case, 'freshness:fill_repeated_across_forked_processes',
+             {'blocks': len(allf), 'distinct': len(set(allf)), 'positions_where_children_agree': same_pos})
+
+
 def canaries(ctx):
     good = ref.iso0_clear('1234567890', '4000001234567899')
     ctx.canary('length nibble is hex for 10 digits', good.hex()[:2] == '0a')
@@ -211,6 +259,8 @@ def require(m):
         reasons.append('TDES key lengths 16 and 24 not both driven')
     if set(m['classes'].get('key lengths (aes)', ())) != {16, 24, 32} and not m['violations']:
         reasons.append('AES key lengths not all driven')
+    if not m['counters'].get('format-4 blocks built in forked children'):
+        reasons.append('freshness across fork never observed')
     if not m['counters'].get('format-4 blocks built without a fill'):
         reasons.append('freshness never observed')
     return reasons
